@@ -349,11 +349,20 @@ UNITS['U25k'] = dict(
                  'symbolic operand types made CBMC exceed 64 GB (a Vec returned from either branch of combine_nulls is reallocated by push); the planner fns read a type only through is_nullable() / non_nullable(), which tag_tables covers completely'],
     not_covered=['Cast, Floor, MergeKeep, DictLookup arms', 'the ASTBuilder-generated type inference and the executor wiring in query_plan::prepare'])
 
+UNITS['U27k'] = dict(
+    kind='kani', crate='kani/U27', timeout_s=600, mem_gb=8,
+    title='row count of the NULL column that stands in for a column missing from a partition: compile_expr choice per filter kind (slice) x query_plan::prepare decoding of source_type (slice) x Filter::apply_filter (complete)',
+    harnesses=[dict(name='proofs::missing_column_rows_match_filter', clause='per filter kind: real columns go through Filter / NullableFilter / Select / Empty and the stand-in NULL column takes its length from NonZeroU8ElementCount / NonNullElementCount / InputLength / 0 / partition length respectively', fn='compile_expr[slice] / prepare[slice] / Filter::apply_filter'),
+               dict(name='proofs::vx_canary', expect_fail=True)],
+    assumptions=['A-astbuilder: the generated planner methods (null_vec, null_vec_like, filter, nullable_filter, select, empty) build the node named after them from their arguments in order; recording stand-ins',
+                 'the operators behind the nodes are U19 (NullVecLike count slice, Filter*, NullableFilter*) and U13k (NULL column window)'],
+    not_covered=['the other call sites of null_vec_like (group-by placeholders)', 'the ASTBuilder proc-macro'])
+
 UNITS['U24k'] = dict(
     kind='kani', crate='kani/U24', timeout_s=600, mem_gb=12, jobs=2,
     title='BOUNDED (names <= 2 ASCII characters): storage.rs sanitize_table_name - cleaning steps after lower-casing (slice) and the verbatim-or-digest decision (expression slice)',
-    harnesses=[dict(name='proofs::verbatim_only_if_identical', bounded='cleaned / requested names <= 2 chars over {E,e,-,.,/,_,7,space}, unwind 6', unwind=6, clause='needs_digest(cleaned, requested) == (cleaned != requested) bytewise', fn='sanitize_table_name[slice: digest decision]'),
-               dict(name='proofs::cleaned_name_is_safe', bounded='names <= 2 chars over {E,e,-,.,/,_,7,space}, unwind 6', unwind=6, clause='cleaned name is over [A-Za-z0-9_.-] and does not start with . or -', fn='sanitize_table_name[slice: retain / trim]'),
+    harnesses=[dict(name='proofs::verbatim_only_if_identical', bounded='cleaned / requested names of 2 chars (and a 1-char cleaned name) over {E,e,-,.,/,_,7,space}, unwind 6', unwind=6, clause='needs_digest(cleaned, requested) == (cleaned != requested) bytewise', fn='sanitize_table_name[slice: digest decision]'),
+               dict(name='proofs::cleaned_name_is_safe', bounded='names of 2 chars over {E,e,-,.,/,_,7,space}, unwind 6', unwind=6, clause='cleaned name is over [A-Za-z0-9_.-] and does not start with . or -', fn='sanitize_table_name[slice: retain / trim]'),
                dict(name='proofs::vx_canary', expect_fail=True)],
     assumptions=['A-sha: distinct originals get distinct digests (the digest formatting itself is not extracted)', 'str::to_lowercase (std, Unicode tables) is not executed symbolically: CBMC did not finish on it in 900 s'],
     not_covered=['names longer than 2 characters, non-ASCII names', 'the `-<name>-<digest>` formatting', 'truncation to 189 bytes'])
@@ -364,7 +373,7 @@ PROPS = {
                 level_note='the Cap\'n Proto payload encode/decode (segments, catalogue) is not covered: the "decodes to exactly the logical content" half of C14 is decided for the envelope only',
                 technique='contract-based deductive verification (Verus; Kani complete for the byte-conversion assumption) of extracted functions',
                 assumptions=[], not_covered=['capnp encode/decode of WAL segments, partition segments and the catalogue', 'FileBlobWriter']),
-    'C12': dict(level='other', units=['U13k', 'U21k', 'U19'],
+    'C12': dict(level='other', units=['U13k', 'U21k', 'U19', 'U27k'],
                 level_text='complete Kani proofs of the LIMIT/OFFSET row-window arithmetic (never more rows than LIMIT, no panic for any limit/offset/length); bounded Kani check that LIMIT/OFFSET literals give an error value instead of a panic',
                 level_note='narrow: sqlparser, convert_to_native_expr, result assembly (BatchResult::validate) and channel delivery are not covered',
                 technique='contract-based deductive verification (Kani complete + bounded harnesses) of extracted slices',
@@ -375,16 +384,21 @@ PROPS = {
                 level_note='plan_compaction, Table::compact swap, eviction / reload (LRU), and the free stack-machine column::decode over dyn Data are not covered; see known findings',
                 technique='contract-based deductive verification (Verus + Kani complete) of extracted functions and slices',
                 assumptions=[], not_covered=['column::decode (dyn Data stack machine)', 'plan_compaction / Table::compact', 'LRU eviction and reload']),
-    'C13': dict(level='proof', units=['U02'],
+    'C15': dict(level='other', units=['U24k'],
+                level_text='bounded only: Kani harnesses over 2-character names for the table-name cleaning steps and the decision when a directory name must carry the digest of the original name; nothing here is a proof',
+                level_note='very narrow: only "distinct table names never share files, no name can place a file outside the database directory" is touched. The column -> file routing (subpartition + BTreeMap lower_bound lookup) is NOT covered: CBMC did not finish the real std sort / BTreeMap code with String keys in 25 min even for 3 concrete names (unit U22k, kept in the thorough tier as an attempt, verdict ignored when undecided), and Verus has no specs for str ordering or BTreeMap cursors',
+                technique='bounded Kani harnesses (labelled bounded, not counted as discharged obligations) over statement / expression slices of the real sanitize_table_name',
+                assumptions=[], not_covered=['column -> sub-partition file routing', 'partition file names', 'names longer than 2 characters, non-ASCII names', 'lazy loading of sub-partitions']),
+    'C13': dict(level='proof', units=['U02', 'U27k'],
                 level_text='Verus proofs: a column missing from a batch is padded with NULLs for that batch (extend_to_largest body), a column first seen late reads NULL for all earlier rows (ColumnBuffer::null + push_*), per-column append of every input representation',
                 level_note='catalogue tables, lazy column_names initialisation, SELECT * expansion and the HashMap iteration around the per-column code are not covered',
                 technique='contract-based deductive verification (Verus) of extracted functions and statement slices',
                 assumptions=[], not_covered=['catalogue (_meta_tables, _meta_columns_*)', 'compaction column list', 'SELECT * expansion']),
-    'C08': dict(level='proof', units=['U18k'],
-                level_text='complete Kani proofs of the WAL cursor primitives and of the replay-or-delete classification at recovery (narrow: primitives, not the protocol)',
+    'C08': dict(level='proof', units=['U18k', 'U02', 'U24k'],
+                level_text='complete Kani proofs of the WAL cursor primitives, of the replay-or-delete classification at recovery and of the cursor field written to / read from the catalogue; Verus proof that compaction appends every row of every input partition once, in order (compact_append slice); bounded check that two table names share a directory only if identical (narrow: primitives, not the protocol)',
                 level_note='the check catches a broken cursor primitive or classification, not a broken ordering of persist / advance / delete across threads; history composition is not covered',
                 technique='contract-based deductive verification (Kani complete harnesses) of extracted functions and statement slices',
-                assumptions=[], not_covered=['write-ahead-before-acknowledge (thread join)', 'wal_flush ordering', 'catalogue (de)serialisation']),
+                assumptions=[], not_covered=['write-ahead-before-acknowledge (thread join)', 'wal_flush ordering', 'capnp transport of the catalogue']),
     'C16': dict(level='proof', units=['U16k', 'U15k', 'U02', 'U17k'],
                 level_text='float codec: induction base/step discharged by complete Kani harnesses over the extracted loop bodies; integer layouts and client-side row API: bounded Kani harnesses (length <= 4) over all values',
                 level_note='A-bitbuffer, A-ind-scheme, A-capnp; bounded parts are reported under coverage.bounded and not counted as discharged obligations',
@@ -428,16 +442,4 @@ NOT_APPLICABLE = {
     'C11': 'bounded-time completion, worker survival and lock poisoning are liveness / whole-pool facts; only kernel panic-freedom is in reach and is counted under C01-C07',
     'C17': 'the HTTP handlers are actix/tokio glue with no kernel of their own; their value-level content is C16',
     'C18': 'directory contents and condvar wake-up after a multi-threaded history are file-system/concurrency facts outside function contracts',
-    'C02': 'check under construction in this session (merge kernels U09/U10/U13); not claimed until its quick command passes',
-    'C03': 'check under construction in this session; not claimed until its quick command passes',
-    'C04': 'check under construction in this session; not claimed until its quick command passes',
-    'C05': 'check under construction in this session; not claimed until its quick command passes',
-    'C06': 'check under construction in this session; not claimed until its quick command passes',
-    'C07': 'check under construction in this session; not claimed until its quick command passes',
-    'C08': 'check under construction in this session; not claimed until its quick command passes',
-    'C12': 'check under construction in this session; not claimed until its quick command passes',
-    'C13': 'check under construction in this session; not claimed until its quick command passes',
-    'C14': 'check under construction in this session; not claimed until its quick command passes',
-    'C15': 'check under construction in this session; not claimed until its quick command passes',
-    'C16': 'check under construction in this session; not claimed until its quick command passes',
 }
